@@ -104,3 +104,47 @@ Definition ipbl_file_spec (iplen : nat) (innet : bytes -> bytes -> N -> bool) (i
   if Nat.eqb (length buf mod (iplen + 1)) 0
   then ipbl_spec iplen innet ip (chunks (length buf) (iplen + 1) buf)
   else (-1)%Z.
+
+(** ---------------------------------------------------------------- list-type control files (loadlistfd) *)
+(** lines end at LF; a NUL byte ends a line as well (entries are C strings) *)
+Definition is_eol (b : N) : bool := N.eqb b 10 || N.eqb b 0.
+
+(** the entry on the rest [l] of a line whose previous byte is [prev]:
+    - a '#' that is not preceded by a backslash starts a comment: the entry ends there;
+    - a blank or tab ends the entry and only blanks/tabs may follow up to the end of the
+      line (not even a comment): otherwise the file is rejected ([None]);
+    - any other byte belongs to the entry (a backslash in front of '#' is kept). *)
+Fixpoint line_tail (prev : N) (l : bytes) : option bytes :=
+  match l with
+  | [] => Some []
+  | b :: r =>
+      if N.eqb b 35 && negb (N.eqb prev 92) then Some []
+      else if is_blank b then (if forallb is_blank r then Some [] else None)
+      else option_map (cons b) (line_tail b r)
+  end.
+Definition line_entry (l : bytes) : option bytes := line_tail 0 l.
+
+Fixpoint all_some {A} (l : list (option A)) : option (list A) :=
+  match l with
+  | [] => Some []
+  | None :: _ => None
+  | Some x :: r => option_map (cons x) (all_some r)
+  end.
+
+(** the meaning of a list file: [None] = rejected (EINVAL), else its non-empty entries in order *)
+Definition list_spec (content : bytes) : option (list bytes) :=
+  option_map (filter (fun e => negb (is_nil e)))
+             (all_some (map line_entry (split_on is_eol content))).
+
+(** ---------------------------------------------------------------- numeric control files (loadintfd) *)
+Definition dec_value (s : bytes) : N := fold_left (fun a b => (a * 10 + (b - 48))%N) s 0%N.
+
+(** [None] = rejected; no entry at all = the default; exactly one entry that is a
+    decimal numeral not above ULONG_MAX (2^64 - 1) = its value *)
+Definition int_spec (content : bytes) (def : N) : option N :=
+  match list_spec content with
+  | None => None
+  | Some [] => Some def
+  | Some [e] => if forallb is_digit e && N.leb (dec_value e) 18446744073709551615 then Some (dec_value e) else None
+  | Some _ => None
+  end.
